@@ -15,6 +15,8 @@ array cube is built from:
     ffuncs.ffunc_{count,valid_count,sum,mean}.__init__         (validity = valid_f & valid_w; summables /
                                                                countables zeroed where invalid)
     xfuncs.xfunc_{count,valid_count,sum,mean}.fill             per bin: region[b] == sum over the rows of b
+    ffuncs.ffunc_{count,valid_count,sum,mean}.get_initial_regions   working shape, corner == totals over all rows, 0 elsewhere
+    ffuncs.ffunc_{...}.fill_func._fill (the closure)           region[coords] == sum over the given row ids, rest unchanged
 
 Clause names decide the property: everything containing `/missing-rule-` or `/formats-` is C04,
 every other clause of this module is C03 (see `property_of`).
@@ -41,6 +43,8 @@ AGG_METHODS = ("count", "valid_count", "sum", "mean")
 
 
 def property_of(ob):
+    if ob.startswith("checker.") or ob.startswith("spec_agg."):
+        return "checker"  # self-checks of the checker: a failure is exit 3, never a verdict on the code
     if "/missing-rule-" in ob or "/formats-" in ob:
         return "C04"
     return "C03"
@@ -157,6 +161,9 @@ def spec_of(views, extents, N, fact, weights, ignore, agg):
         val, miss = S.Spec_agg(views, fact, weights, ignore, agg, shape=extents, N=N)
         rule = S.missing_rule(views, fact, weights, ignore, agg, shape=extents, N=N)
         tol = S.tolerance(fact, weights, agg, N)
+        # the two independently written formulations of the missing set must coincide
+        MON.check("spec_agg.cross_check/two-formulations-of-the-missing-set-coincide", bool(miss.shape == rule.shape and np.array_equal(miss, rule)),
+                  lambda: "Spec_agg %r vs missing_rule %r" % (miss.tolist(), rule.tolist()), lambda: {"case": CASE_DESC}, None)
         hit = _MEMO[key] = (val, miss, rule, tol)
     return hit
 
@@ -827,6 +834,166 @@ def fill_contract(cls):
     return Contract(qual, requires=requires, old=old, ensures=_adapt(qual, items), describe=_case_desc, classify=_case_cls)
 
 
+def _ffunc_parts(self, agg):
+    """names of the regions of an index-cube aggregate, in order"""
+    if agg == "count" and self.weights is None:
+        return ["values"]
+    if agg == "valid_count" and not isinstance(self.return_missing_as, tuple) and self.return_missing_as == 0:
+        return ["values"]
+    return ["values", "valid", "missing"][: 2 if self.ignore_missing else 3]
+
+
+def _ffunc_over_rows(self, agg, rows, n):
+    """{part: sum over the given rows (None = all n rows)} from the aggregate's own normalised arrays
+    (whose content is the constructor's postcondition)."""
+
+    def tot(x):
+        x = np.asarray(x)
+        if x.ndim == 0:  # scalar weight / its validity: the same value for every row
+            return float(x) * n
+        if rows is not None:
+            x = x[rows]
+        return x.astype(np.float64).sum(axis=0)
+
+    exp = {}
+    if agg == "count":
+        if self.weights is None:
+            exp["values"] = float(n)
+        else:
+            exp["values"] = tot(self.weights)
+            exp["valid"] = tot(self.validity)
+            exp["missing"] = n - exp["valid"]
+    else:
+        nvalid = tot(self.validity)
+        exp["values"] = tot(self.summables if agg in ("sum", "mean") else self.countables)
+        exp["valid"] = tot(self.countables) if agg == "mean" else nvalid
+        exp["missing"] = n - nvalid
+    return exp
+
+
+def _ffunc_nrows(self, agg, cube):
+    if agg != "count":
+        return int(np.shape(self.validity)[0])
+    if self.N is not None:
+        return int(self.N)
+    if cube is not None and cube.dims:
+        return int(cube.dims[0].shape[0])
+    if self.weights is not None and np.ndim(self.weights):
+        return int(np.shape(self.weights)[0])
+    return None
+
+
+def _close(got, want):
+    got = np.asarray(got, dtype=np.float64)
+    want = np.broadcast_to(np.asarray(want, dtype=np.float64), got.shape) if np.ndim(want) <= got.ndim else np.asarray(want)
+    return got.shape == want.shape and bool(np.all(np.abs(got - want) <= 1e-9 * np.maximum(1.0, np.abs(want))))
+
+
+def initial_regions_contract(cls):
+    """ffunc_*.get_initial_regions(cube): working-shaped regions, zero except for the corner, which holds the
+    totals over all rows (the marginal differencing in `reduce` subtracts from them)."""
+    qual = "ffuncs.%s.get_initial_regions" % cls
+    agg = cls.split("_", 1)[1]
+
+    def requires(self, cube):
+        return hasattr(cube, "working_shape") and hasattr(cube, "corner") and _ffunc_nrows(self, agg, cube) is not None
+
+    def old(self, cube):
+        n = _ffunc_nrows(self, agg, cube)
+        tail = () if agg == "count" else tuple(np.shape(self.validity)[1:])
+        return {"names": _ffunc_parts(self, agg), "exp": _ffunc_over_rows(self, agg, None, n), "shape": tuple(cube.working_shape) + tail, "n": n}
+
+    def c_shape(o, res, self, cube):
+        if len(res) != len(o["names"]):
+            return "%d regions, expected %r" % (len(res), o["names"])
+        for name, r in zip(o["names"], res):
+            if tuple(np.shape(r)) != o["shape"]:
+                return "region %r has shape %r, working shape (+ fact columns) is %r" % (name, tuple(np.shape(r)), o["shape"])
+        return True
+
+    def make_corner(part):
+        def clause(o, res, self, cube):
+            if part not in o["names"]:
+                return NA
+            got = np.asarray(res[o["names"].index(part)])[cube.corner]
+            if not _close(got, o["exp"][part]):
+                return "corner of the %s region holds %r, total over all %d rows is %r" % (part, np.asarray(got).tolist(), o["n"], np.asarray(o["exp"][part]).tolist())
+            return True
+
+        return clause
+
+    def c_rest(o, res, self, cube):
+        for name, r in zip(o["names"], res):
+            z = np.array(r, dtype=np.float64, copy=True)
+            z[cube.corner] = 0
+            if np.any(z != 0):
+                return "region %r is not zero outside the corner: %r" % (name, np.asarray(r).tolist())
+        return True
+
+    items = [("ensures-regions-have-working-shape", c_shape), ("ensures-corner-values-total", make_corner("values")),
+             ("ensures-corner-valid-count-total", make_corner("valid")), ("ensures-corner-missing-count-total", make_corner("missing")),
+             ("ensures-zero-outside-corner", c_rest)]
+    return Contract(qual, requires=requires, old=old, ensures=_adapt(qual, items), describe=_case_desc, classify=_case_cls)
+
+
+def fill_closure_contract(cls, func, regions):
+    """The `_fill(x_coords, x_rowids)` closure returned by ffunc_*.fill_func(regions): the addressed cell of every
+    region holds the sum over the given row ids; every other cell is unchanged."""
+    qual = "ffuncs.%s.fill_func._fill" % cls
+    agg = cls.split("_", 1)[1]
+
+    def requires(x_coords, x_rowids):
+        r = np.asarray(x_rowids)
+        return isinstance(x_coords, tuple) and r.ndim == 1 and r.dtype.kind in "iu"
+
+    def old(x_coords, x_rowids):
+        return {"names": _ffunc_parts(func, agg), "before": [np.array(r, copy=True) for r in regions],
+                "exp": _ffunc_over_rows(func, agg, np.asarray(x_rowids).astype(np.int64), len(x_rowids))}
+
+    def make_cell(part):
+        def clause(o, res, x_coords, x_rowids):
+            if part not in o["names"]:
+                return NA
+            if len(regions) != len(o["names"]):
+                return "%d regions, expected %r" % (len(regions), o["names"])
+            got = regions[o["names"].index(part)][x_coords]
+            if not _close(got, o["exp"][part]):
+                return "cell %r of the %s region holds %r, sum over rows %r is %r" % (
+                    x_coords, part, np.asarray(got).tolist(), np.asarray(x_rowids).tolist(), np.asarray(o["exp"][part]).tolist())
+            return True
+
+        return clause
+
+    def c_frame(o, res, x_coords, x_rowids):
+        for name, r, b in zip(o["names"], regions, o["before"]):
+            now = np.array(r, copy=True)
+            now[x_coords] = b[x_coords]
+            if not np.array_equal(now, b, equal_nan=True):
+                return "region %r changed outside cell %r" % (name, x_coords)
+        return True
+
+    items = [("ensures-cell-holds-values-over-rowids", make_cell("values")), ("ensures-cell-holds-valid-count-over-rowids", make_cell("valid")),
+             ("ensures-cell-holds-missing-count-over-rowids", make_cell("missing")), ("frame-other-cells-unchanged", c_frame)]
+    return Contract(qual, requires=requires, old=old, ensures=_adapt(qual, items), describe=_case_desc, classify=_case_cls)
+
+
+def wrap_fill_func(klass, cls):
+    """`fill_func` returns a closure: replace the method so that the closure it returns is under contract
+    (DESIGN Appendix B)."""
+    from .contract import wrap
+
+    real = klass.__dict__["fill_func"]
+
+    def fill_func(self, regions):
+        f = real(self, regions)
+        if not MON.enabled:
+            return f
+        return wrap(f, fill_closure_contract(cls, self, list(regions)))
+
+    fill_func.__wrapped_real__ = real
+    klass.fill_func = fill_func
+
+
 # ----------------------------------------------------------------------------- installation
 
 _installed = {}
@@ -851,6 +1018,8 @@ def install():
         attach(getattr(xfuncs, "xfunc_" + agg), "__init__", init_contract("xfuncs", "xfunc_" + agg))
         attach(getattr(ffuncs, "ffunc_" + agg), "__init__", init_contract("ffuncs", "ffunc_" + agg))
         attach(getattr(xfuncs, "xfunc_" + agg), "fill", fill_contract("xfunc_" + agg))
+        attach(getattr(ffuncs, "ffunc_" + agg), "get_initial_regions", initial_regions_contract("ffunc_" + agg))
+        wrap_fill_func(getattr(ffuncs, "ffunc_" + agg), "ffunc_" + agg)
     # the package re-exports the cube classes by reference: same class objects, nothing to re-point
     assert catii.ccube is ccubes.ccube and catii.xcube is xcubes.xcube
     _installed.update(ccubes=ccubes, xcubes=xcubes, ffuncs=ffuncs, xfuncs=xfuncs, ccube=ccubes.ccube, xcube=xcubes.xcube)
